@@ -2353,7 +2353,10 @@ def r03i(P, R):
            "the result of direct_fields_of_output_type for kinds %s could not be evaluated" % sorted(unknown), loc=d.loc())
     # __typename meta field on all three
     for k in sorted(COMPOSITE & some):
-        ok = all(has_call(pvd.deep_atoms(s), gtm.path) for s in srcs[k])
+        # the meta field may be added by a helper that builds the list step by step: look through what computes the value
+        ok = all(has_call(pvd.deep_atoms(s), gtm.path)
+                 or any(y.get("k") in ("Call", "MethodCall") and call_name(y) == gtm.path for y in source_nodes(P, pvd, s, depth=3))
+                 for s in srcs[k])
         R.check("R03-i", "typename:" + k, ok, "__typename is selectable on %s" % k,
                 "the field list returned for %s types does not derive from get_typename_meta_field: `__typename` is rejected there" % k, loc=d.loc())
     # the two selection-set rules use the same notion of "composite" as direct_fields_of_output_type
